@@ -3,6 +3,8 @@ package main
 import (
 	"fmt"
 	"strings"
+	"sync"
+	"time"
 
 	"github.com/runreveal/pql"
 	"github.com/runreveal/pql/parser"
@@ -33,6 +35,31 @@ func totalOne(w *run.Worker, src string) {
 			o.Compile(src)
 		}
 	})
+}
+
+// totalEach is totalOne with one watchdog case per entry point (for long inputs).
+func totalEach(w *run.Worker, src string) {
+	var stmts []parser.Statement
+	var err error
+	w.Begin("totality:Scan", src)
+	w.Nontrivial()
+	w.Try(src, func() { parser.Scan(src) })
+	w.Begin("totality:SplitStatements", src)
+	w.Try(src, func() { parser.SplitStatements(src) })
+	w.Begin("totality:Parse", src)
+	w.Try(src, func() { stmts, err = parser.Parse(src) })
+	if err == nil {
+		w.Begin("totality:Walk", src)
+		w.Try(src, func() {
+			for _, s := range stmts {
+				parser.Walk(s, func(n parser.Node) bool { return true })
+			}
+		})
+	}
+	for _, o := range c12Opts {
+		w.Begin("totality:Compile", src)
+		w.Try(src, func() { o.Compile(src) })
+	}
 }
 
 // c12Families are parametric nesting / error-cascade inputs; n is the repetition count.
@@ -117,7 +144,7 @@ func c12Main(r *run.Runner) {
 	maxBytes := 2048
 	if r.Thorough() {
 		n = 4
-		maxBytes = 8192
+		maxBytes = 4096
 	}
 	e := enum.Strings{Alpha: c09Alpha, MaxLen: n, Split: 2}
 	r.Sweep("bytes36", e.Items(), func(w *run.Worker, item int64) {
@@ -148,10 +175,27 @@ func c12Main(r *run.Runner) {
 			cases = append(cases, fc{fi, k})
 		}
 	}
+	// The families run on two workers with a 30 s limit per call: these inputs are
+	// kilobytes long and some are legitimately quadratic (seconds at 4 KiB).
+	r.MaxWorkers = 2
+	r.HangLimit.Store(30)
+	var slowMu sync.Mutex
+	slowest := map[string]float64{}
 	r.Sweep("families", int64(len(cases)), func(w *run.Worker, item int64) {
 		c := cases[item]
-		totalOne(w, c12Families[c.fam].make(c.n))
+		src := c12Families[c.fam].make(c.n)
+		t0 := time.Now()
+		totalEach(w, src)
+		d := time.Since(t0).Seconds()
+		slowMu.Lock()
+		if d > slowest[c12Families[c.fam].name] {
+			slowest[c12Families[c.fam].name] = d
+		}
+		slowMu.Unlock()
 	})
+	r.MaxWorkers = 0
+	r.HangLimit.Store(0)
+	r.Extra["slowest_family_case_seconds"] = slowest
 	fam := []string{}
 	for _, f := range c12Families {
 		fam = append(fam, f.name)
@@ -163,4 +207,4 @@ func c12Main(r *run.Runner) {
 	r.Sample(c12Families[21].make(3))
 }
 
-func c12Replay(w *run.Worker, v *run.Viol) { totalOne(w, v.Source) }
+func c12Replay(w *run.Worker, v *run.Viol) { totalEach(w, v.Source) }
